@@ -130,4 +130,50 @@ theorem info_stdAttrs (i : AttrInfo) (hp : ∀ a ∈ i.props, isPropAttr a = tru
   cases i
   simp_all
 
+theorem getAttr_cons (a : Attr) (as : List Attr) (ns n : Str) :
+    getAttr (a :: as) ns n = if a.ns = ns ∧ a.name = n then some a.val else getAttr as ns n := by
+  by_cases h : a.ns = ns ∧ a.name = n <;> simp [getAttr, List.find?, h]
+
+theorem getAttr_none_of_not_mem {as : List Attr} {ns n : Str} (h : (ns, n) ∉ as.map attrKey) :
+    getAttr as ns n = none := by
+  induction as with
+  | nil => rfl
+  | cons a as ih =>
+    simp only [List.map_cons, List.mem_cons, not_or] at h
+    rw [getAttr_cons, if_neg, ih h.2]
+    intro hc
+    exact h.1 (by simp [attrKey, hc.1, hc.2])
+
+/-- Attribute order does not matter: looking an attribute up by name gives the same value in every
+    permutation of an attribute list with pairwise distinct names. -/
+theorem getAttr_perm {as bs : List Attr} (h : as.Perm bs) (hn : (as.map attrKey).Nodup) (ns n : Str) :
+    getAttr as ns n = getAttr bs ns n := by
+  induction h with
+  | nil => rfl
+  | cons a _ ih =>
+    simp only [List.map_cons, List.nodup_cons] at hn
+    rw [getAttr_cons, getAttr_cons, ih hn.2]
+  | swap a b l =>
+    simp only [List.map_cons, List.nodup_cons, List.mem_cons, not_or] at hn
+    simp only [getAttr_cons]
+    by_cases ha : a.ns = ns ∧ a.name = n
+    · by_cases hb : b.ns = ns ∧ b.name = n
+      · exact absurd (by simp [attrKey, ha.1, ha.2, hb.1, hb.2] : attrKey b = attrKey a) hn.1.1
+      · simp [ha, hb]
+    · simp [ha]
+  | trans h1 _ ih1 ih2 =>
+    rw [ih1 hn, ih2 ((h1.map attrKey).nodup_iff.mp hn)]
+
+/-- The attribute record of an element does not depend on the order of its attributes: the named
+    attributes are equal, the property attributes are a permutation. -/
+theorem info_perm {as bs : List Attr} (h : as.Perm bs) (hn : (as.map attrKey).Nodup) :
+    (info as).base = (info bs).base ∧ (info as).lang = (info bs).lang ∧ (info as).id = (info bs).id ∧
+    (info as).about = (info bs).about ∧ (info as).nodeID = (info bs).nodeID ∧
+    (info as).resource = (info bs).resource ∧ (info as).datatype = (info bs).datatype ∧
+    (info as).parseType = (info bs).parseType ∧ (info as).props.Perm (info bs).props ∧
+    (info as).bad = (info bs).bad ∧ (info as).unsup = (info bs).unsup := by
+  refine ⟨getAttr_perm h hn _ _, getAttr_perm h hn _ _, getAttr_perm h hn _ _, getAttr_perm h hn _ _,
+    getAttr_perm h hn _ _, getAttr_perm h hn _ _, getAttr_perm h hn _ _, getAttr_perm h hn _ _,
+    h.filter _, h.any_eq, h.any_eq⟩
+
 end RdfModel.RX
